@@ -329,6 +329,19 @@ def unit_reference(ctx):
       want[i, mjm.M_colind[mjm.M_rowadr[i] + k]] = mjm.M_rowadr[i] + k
   if not np.array_equal(E, want):
     ctx.error("put_model table M_elemid differs from MuJoCo's CSR layout of M (harness precondition broken)")
+  mjd = mujoco.MjData(mjm)
+  mujoco.mj_forward(mjm, mjd)
+  d = mjw.put_data(mjm, mjd)
+  mjw.forward(m, d)
+  rn, ra, ci = d.moment_rownnz.numpy()[0], d.moment_rowadr.numpy()[0], d.moment_colind.numpy()[0]
+  for a in range(mjm.nu):
+    cols = [int(ci[ra[a] + k]) for k in range(rn[a])]
+    if any(x >= y for x, y in zip(cols, cols[1:])):
+      ctx.error(f"moment row {a} of the reference model is not strictly ascending: precondition of unit actuator/JtJ broken ({cols})")
+  for t in range(mjm.ntendon):
+    cols = [int(mjm.ten_J_colind[mjm.ten_J_rowadr[t] + k]) for k in range(mjm.ten_J_rownnz[t])]
+    if len(set(cols)) != len(cols):
+      ctx.error(f"tendon Jacobian row {t} repeats a column: precondition of unit damper/tendon broken")
   Mi, Mj = m.M_fullm_i.numpy(), m.M_fullm_j.numpy()
   adrs = sorted(int(E[i, j]) for i, j in zip(Mi, Mj) if E[i, j] >= 0)
   if adrs != list(range(mjm.nC)):
@@ -793,13 +806,13 @@ def unit_act_vel(dname, gname, bname):
     names = {"w": w, "u": u, "na": na, "actadr": adr, "actnum": num, "actearly": P("actuator_actearly", u), "actlimited": P("actuator_actlimited", u), "ctrllimited": ctrllim, "clampctrl_disabled": noclamp,
              "forcelimited": P("actuator_forcelimited", u), "ctrl": ctrl, "velocity": vel_read, "gainprm2": ktf.prev("actuator_gainprm", 0, u).c[2], "biasprm2": ktf.prev("actuator_biasprm", 0, u).c[2]}
     tag = f"{dname}-{gname}-{bname}"
-    env = {"randomize_floats": 0, "ctrllimited": ctrllim, "clampctrl_disabled": noclamp, "ctrlrange": [crange[0], crange[1]]}
+    env = {"randomize_floats": 6, "ctrllimited": ctrllim, "clampctrl_disabled": noclamp, "ctrlrange": [crange[0], crange[1]]}
     rpk = lib.make_replay(ctx, ktd, "mujoco_warp._src.derivative:_qderiv_actuator_passive_vel", f"vel.{tag}", "goal", goal="checks.c27:goal_act_vel", env=env)
     attrs = {"none": "", "integrator": 'dyntype="integrator"', "filter": 'dyntype="filter" dynprm="0.05"', "filterexact": 'dyntype="filterexact" dynprm="0.05"', "muscle": 'dyntype="muscle"'}[dname]
     attrs += {"fixed": ' gainprm="1.5"', "affine": ' gaintype="affine" gainprm="1.5 0.3 0.4"', "muscle": ' gaintype="muscle" gainprm="0.75 1.05 100 200 0.5 1.6 1.5 1.3 1.2" lengthrange="-1 1"'}[gname]
     attrs += {"none": "", "affine": ' biastype="affine" biasprm="0.2 -0.5 -0.3"', "muscle": ' biastype="muscle" biasprm="0.75 1.05 100 200 0.5 1.6 1.5 1.3 1.2"'}[bname]
     api = lambda extra="", ctrl=0.4: replay_fd(ACT_XML.format(attrs=attrs + extra), ctrl=[ctrl], act=(None if dyn == DYN["none"] else [0.6]), qvel=[0.3], draws=1, tag=f"actuator.{tag}")
-    both = first_reproducing(rpk, api(), api(' actearly="true"'))
+    both = first_reproducing(rpk, api(), api(' actearly="true"'), api(' forcelimited="true" forcerange="-0.05 0.05"'))
     if muscle:
       ctx.prove(sess, "vel/muscle-velocity-slope", vel == dF, And(smooth_pt, inside), names=names, replay=api(),
                 desc=f"_qderiv_actuator_passive_vel ({tag}): the velocity slope of the muscle force-length-velocity gain is missing (vel ignores GainType.MUSCLE); MuJoCo's mjd_smooth_vel includes it")
@@ -827,9 +840,9 @@ def goal_jtj(spec, pre, post):
   cols = [int(pre["moment_colind_in"][w, adr + k]) for k in range(n)]
   if any(cols[k] >= cols[k + 1] for k in range(n - 1)):
     return True, "skipped: moment row not strictly ascending (outside the precondition)"
-  stored = [(r, c, int(E[r, c])) for r in range(nv) for c in range(E.shape[1]) if E[r, c] >= 0]
+  stored = [(r, c, int(E[r, c])) for r in cols for c in cols if r < E.shape[0] and c < E.shape[1] and E[r, c] >= 0]
   if len({e for _, _, e in stored}) != len(stored) or any(r < c for r, c, _ in stored):
-    return True, "skipped: M_elemid not injective / not lower triangular (outside the precondition)"
+    return True, "skipped: M_elemid not injective / not lower triangular on the row's column pairs (outside the precondition)"
   mom = np.zeros(max(nv, max(cols, default=0) + 1))
   for k in range(n):
     mom[cols[k]] = float(pre["actuator_moment_in"][w, adr + k])
@@ -851,7 +864,7 @@ def unit_jtj(ctx):
   ctx.encode(k)
   ctx.bound(unroll=UNR, shape_cap=8, note=f"moment rows of at most {UNR} non-zeros; generic stored pair (r, c); exact reals")
   ctx.assume("thread's own accesses in bounds (C17)", "moment rows have strictly ascending column indices (MuJoCo CSR invariant; checked on the reference model)",
-             "M_elemid is injective on stored pairs and stores only r >= c (put_model table, validated against MuJoCo's CSR M in unit reference)")
+             "M_elemid is an nv x nv table, injective on stored pairs, stores only r >= c, addresses < nC (put_model table, validated against MuJoCo's CSR M in unit reference); moment columns are dof ids")
   kt = lib.kernel_thread(k, unroll=UNR, cap=8)
   w, a = kt.tid
   P = kt.pre
@@ -865,6 +878,11 @@ def unit_jtj(ctx):
   pre = [z3.Implies(i + 1 < n, cols[i] < cols[i + 1]) for i in range(UNR - 1)]
   pre += [z3.Implies(z3.And(i < n, j < n, E(cols[i], cols[j]) == e, e >= 0), z3.And(cols[i] == r, cols[j] == c)) for i in range(UNR) for j in range(UNR)]
   pre += [z3.Implies(E(cols[i], cols[j]) >= 0, cols[i] >= cols[j]) for i in range(UNR) for j in range(UNR)] + [z3.Implies(e >= 0, r >= c)]
+  # M_elemid is nv x nv, every column index is a dof id, every stored address lies inside qDeriv (nC entries)
+  nvs = kt.cell("M_elemid").shape
+  pre += [nvs[0] == nvs[1], core.zbool(kt.inshape("M_elemid", r, c)), z3.Implies(e >= 0, core.zbool(kt.inshape("qDeriv_out", w, e)))]
+  pre += [z3.Implies(i < n, z3.And(cols[i] >= 0, cols[i] < nvs[0])) for i in range(UNR)]
+  pre += [z3.Implies(z3.And(i < n, j < n, E(cols[i], cols[j]) >= 0), E(cols[i], cols[j]) < kt.cell("qDeriv_out").shape[1]) for i in range(UNR) for j in range(UNR)]
   sess = oneshot(ctx, kt.bg + pre)
   mom = lambda x: sum([z3.If(z3.And(i < n, cols[i] == x), ms[i], 0) for i in range(UNR)], z3.RealVal(0))
   ctx.reach(sess, "twin:off-diagonal-pair-of-a-full-row", And(n == UNR, e >= 0, cols[0] == c, cols[UNR - 1] == r, vel != 0))
@@ -938,10 +956,41 @@ def unit_assemble(variant):
     d2 = host.shim_dataclass(d, "d.", symbolic=sym_d)
     ma, da = host.arrays_of(m2), host.arrays_of(d2)
     out = host.sym_array("out", (nworld, nC), wp.float32)
+    E_np = m.M_elemid.numpy()
+    rn_, ra_, ci_ = d.moment_rownnz.numpy(), d.moment_rowadr.numpy(), d.moment_colind.numpy()
+
+    VEL = {(w_, a_): z3.Real(f"VEL_{w_}_{a_}") for w_ in range(nworld) for a_ in range(nu)}
+    vel_impl = {}
+
+    def hook(hr, kernel, dim, args):
+      # the J^T vel J accumulation kernel is replaced by its contract (proved in unit actuator/JtJ; its preconditions -- ascending
+      # moment rows, injective lower-triangular M_elemid -- are checked concretely here): out[w, M_elemid[r, c]] += vel * moment_r * moment_c
+      if kernel.func.__name__ != "_qderiv_actuator_passive_actuation_sparse":
+        return None
+      mom_c, vel_c, out_c = args[4].ref.cell, args[5].ref.cell, args[6].ref.cell
+      for w_ in range(dim[0]):
+        for a_ in range(dim[1]):
+          cols = [int(ci_[w_, ra_[w_, a_] + k]) for k in range(int(rn_[w_, a_]))]
+          if any(x >= y for x, y in zip(cols, cols[1:])):
+            raise core.Unsupported("moment row not ascending: contract of the J^T J kernel not applicable")
+          vel_impl[(w_, a_)] = vel_c.d[0][vel_c.flat([w_, a_])]
+          v = VEL[(w_, a_)]
+          for x, r_ in enumerate(cols):
+            for y, c_ in enumerate(cols[: x + 1]):
+              e_ = int(E_np[r_, c_])
+              if e_ >= 0:
+                f = out_c.flat([w_, e_])
+                out_c.d[0][f] = arith("+", out_c.d[0][f], arith("*", arith("*", mom_c.d[0][mom_c.flat([w_, int(ra_[w_, a_]) + x])], v), mom_c.d[0][mom_c.flat([w_, int(ra_[w_, a_]) + y])]))
+      return "skip"
+
+    stored = [(i_, j_, int(E_np[i_, j_])) for i_ in range(nv) for j_ in range(nv) if E_np[i_, j_] >= 0]
+    if len({e_ for _, _, e_ in stored}) != len(stored) or any(i_ < j_ for i_, j_, _ in stored):
+      ctx.error("M_elemid not injective / not lower triangular on this model: contract of the J^T J kernel not applicable")
+    ctx.assume("_qderiv_actuator_passive_actuation_sparse is replaced by its contract proved in unit actuator/JtJ (preconditions checked concretely on the model); the per-actuator velocity gain it receives is proved equal to the reference separately (vel[w][a]) and enters the entry queries as a free real")
     saved = host.Interp
     host.Interp = A.make_interp()
     try:
-      with host.HostRun(mode="exec") as hr:
+      with host.HostRun(mode="exec", on_launch=hook) as hr:
         derivative.deriv_smooth_vel(m2, d2, out)
     finally:
       host.Interp = saved
@@ -986,7 +1035,9 @@ def unit_assemble(variant):
         p = dict(stateful=stateful, gain_affine=int(mjm.actuator_gaintype[a]) == 1, bias_affine=int(mjm.actuator_biastype[a]) == 1, gainprm2=M_("actuator_gainprm", w, a, 2), biasprm2=M_("actuator_biasprm", w, a, 2),
                  ctrl=D_("ctrl", w, a), ctrllimited=False, clampctrl_disabled=False, ctrlrange=[0.0, 0.0], act=act, actearly=M_("actuator_actearly", w, a), forcelimited=M_("actuator_forcelimited", w, a),
                  forcerange=[M_("actuator_forcerange", w, a, 0), M_("actuator_forcerange", w, a, 1)], force=D_("actuator_force", w, a))
-        vels.append(ref_act_vel(p, nxt))
+        if act_on:
+          ctx.prove(sess, f"vel[{w}][{a}]", zr(vel_impl[(w, a)]) == zr(ref_act_vel(p, nxt)), names={"force": p["force"]}, replay=rp, desc=f"deriv_smooth_vel ({variant}): velocity gain of actuator {a} (world {w}) handed to the J^T J accumulation differs from the reference d force / d velocity")
+        vels.append(VEL[(w, a)])
         row = [0.0] * nv
         for k in range(int(rownnz[w, a])):
           row[int(colind[w, rowadr[w, a] + k])] = D_("actuator_moment", w, int(rowadr[w, a]) + k)
@@ -1094,6 +1145,193 @@ def replay_assemble(ctx, variant, ma, da, out):
   return _rp
 
 
+# ================================================================================================ H mode: RNE (Coriolis / centrifugal) derivative
+
+RNE_MODELS = {
+  "chain3": ("""<mujoco><option integrator="implicit" timestep="0.005"/><worldbody>
+<body pos="0 0 1"><joint name="j0" type="hinge" axis="0 1 0"/><geom type="capsule" size=".05" fromto="0 0 0 .4 0 0"/>
+ <body pos=".4 0 0"><joint name="j1" type="hinge" axis="1 0 0"/><geom type="capsule" size=".04" fromto="0 0 0 .1 .3 0"/>
+  <body pos=".1 .3 0"><joint name="j2" type="slide" axis="0 1 1"/><geom type="box" size=".05 .08 .03" pos=".05 0 .1"/></body></body></body>
+</worldbody></mujoco>""", [0.3, -0.5, 0.1]),
+  "ball": ("""<mujoco><option integrator="implicit" timestep="0.005"/><worldbody>
+<body pos="0 0 1"><joint name="j0" type="ball"/><geom type="capsule" size=".05" fromto="0 0 0 .4 .1 0"/>
+ <body pos=".4 .1 0"><joint name="j1" type="hinge" axis="0 0 1"/><geom type="box" size=".05 .12 .03" pos=".1 .05 .02"/></body></body>
+</worldbody></mujoco>""", [0.9, 0.1, -0.3, 0.2, 0.4]),
+  "free": ("""<mujoco><option integrator="implicit" timestep="0.005"/><worldbody>
+<body pos="0 0 1"><freejoint/><geom type="box" size=".1 .2 .05"/>
+ <body pos=".2 .1 0"><joint name="j1" type="hinge" axis="0 1 0"/><geom type="capsule" size=".04" fromto="0 0 0 .3 0 .1"/></body></body>
+</worldbody></mujoco>""", [0.1, 0.2, 1.0, 0.8, 0.2, -0.4, 0.3, 0.5]),
+}
+
+
+def _rne_build(name, qvel=None):
+  import mujoco
+
+  import mujoco_warp as mjw
+
+  xml, qpos = RNE_MODELS[name]
+  mjm = mujoco.MjModel.from_xml_string(xml)
+  mjd = mujoco.MjData(mjm)
+  mjd.qpos[:] = qpos
+  for j in range(mjm.njnt):
+    if mjm.jnt_type[j] in (0, 1):
+      a = mjm.jnt_qposadr[j] + (3 if mjm.jnt_type[j] == 0 else 0)
+      mjd.qpos[a : a + 4] /= np.linalg.norm(mjd.qpos[a : a + 4])
+  mjd.qvel[:] = np.linspace(0.7, -1.1, mjm.nv) if qvel is None else qvel
+  mujoco.mj_forward(mjm, mjd)
+  m = mjw.put_model(mjm)
+  d = mjw.put_data(mjm, mjd)
+  mjw.forward(m, d)
+  return mjm, mjd, m, d
+
+
+def replay_rne(name, sign_only=False):
+  """real code: deriv_rne_vel vs central finite differences of the qfrc_bias that mujoco_warp's own forward computes"""
+
+  def _rp(model):
+    import warp as wp
+
+    import mujoco_warp as mjw
+    from mujoco_warp._src import derivative
+
+    mjm, mjd, m, d = _rne_build(name)
+    nv = mjm.nv
+    out = wp.zeros((1, m.nD), dtype=float)
+    derivative.deriv_rne_vel(m, d, out, False)
+    o = out.numpy()[0]
+    dt = float(mjm.opt.timestep)
+    Di, Dj = m.qD_fullm_i.numpy(), m.qD_fullm_j.numpy()
+    eps = 1e-2
+    FD = np.zeros((nv, nv))
+    for k in range(nv):
+      e = np.zeros(nv)
+      e[k] = eps
+      bp = _rne_build(name, mjd.qvel + e)[3].qfrc_bias.numpy()[0]
+      bm = _rne_build(name, mjd.qvel - e)[3].qfrc_bias.numpy()[0]
+      FD[:, k] = (bp - bm) / (2 * eps)
+    bad = [dict(i=int(i), j=int(j), deriv_rne_vel=float(o[e] / dt), finite_difference=float(FD[i, j])) for e, (i, j) in enumerate(zip(Di, Dj)) if abs(o[e] / dt - FD[i, j]) > 2e-2 * max(1.0, np.abs(FD).max())]
+    return bool(bad), _save(f"rne.{name}", {"model_xml": RNE_MODELS[name][0], "qpos": mjd.qpos, "qvel": mjd.qvel, "mismatches": bad[:10], "how": "derivative.deriv_rne_vel(m, d, out, False) / dt vs central differences of mjw.forward's qfrc_bias"})
+
+  return _rp
+
+
+def replay_implicit_sign(name):
+  """public API: one step of the fully implicit integrator next to mujoco.mj_step (and implicitfast as the control)"""
+
+  def _rp(model):
+    import mujoco
+
+    import mujoco_warp as mjw
+
+    res = {}
+    for integ in ("implicit", "implicitfast"):
+      mjm, mjd, m, d = _rne_build(name, None)
+      mjm.opt.integrator = getattr(mujoco.mjtIntegrator, "mjINT_" + integ.upper())
+      mjd.qvel[:] = np.linspace(2.5, -2.0, mjm.nv)
+      m = mjw.put_model(mjm)
+      d = mjw.put_data(mjm, mjd)
+      for _ in range(5):
+        mujoco.mj_step(mjm, mjd)
+        mjw.step(m, d)
+      res[integ] = dict(mujoco_qvel=mjd.qvel.copy(), mjwarp_qvel=d.qvel.numpy()[0], maxdiff=float(np.abs(mjd.qvel - d.qvel.numpy()[0]).max()))
+    bad = res["implicit"]["maxdiff"] > 1e-3 and res["implicit"]["maxdiff"] > 10 * res["implicitfast"]["maxdiff"]
+    return bad, _save(f"implicit-sign.{name}", {"model_xml": RNE_MODELS[name][0], "runs": res, "how": "5 steps of mjw.step vs mujoco.mj_step from qvel = linspace(2.5, -2), integrator implicit (and implicitfast as control)"})
+
+  return _rp
+
+
+def unit_rne(name):
+  def run(ctx):
+    import warp as wp
+    from mujoco_warp._src import derivative, forward, smooth
+
+    mjm, mjd, m, d = _rne_build(name)
+    nv, nD = int(mjm.nv), int(m.nD)
+    ctx.encode(smooth.com_vel, smooth.rne, derivative.deriv_rne_vel, forward.implicit)
+    ctx.bound(model=name, nv=nv, nD=nD, nworld=1, note="kinematic state (cdof, cinert: the exact rational values of the float32 contents at a generic pose; thorough: inertia of the last body symbolic) fixed, every qvel symbolic: qfrc_bias is a quadratic polynomial in qvel whose exact partial derivatives are compared with the D-structure output of deriv_rne_vel")
+    ctx.assume("Data.cvel / cdof_dot hold the output of com_vel for the current qvel (fwd_velocity ran)")
+    # cdof / cinert are interpreted as symbols and then pinned to the exact rational value of their float32 contents: concrete
+    # python floats would be multiplied in (rounded) double arithmetic by the interpreter, which is not exact real arithmetic
+    free = set() if ctx.tier != "thorough" else {int(mjm.nbody) - 1}  # thorough: the inertia of the last body stays symbolic
+    d2 = host.shim_dataclass(d, "d.", symbolic=lambda n: n in ("d.qvel", "d.cdof", "d.cinert"))
+    da = host.arrays_of(d2)
+
+    def pins(arrs, real):
+      import fractions
+
+      sub = []
+      for n in ("cdof", "cinert"):
+        c = arrs[n].ref.cell
+        a = getattr(real, n).numpy().reshape(c.size, c.ncomp)
+        for i in range(c.size):
+          if n == "cinert" and i in free:
+            continue
+          for k in range(c.ncomp):
+            fr = fractions.Fraction(float(a[i, k]))
+            sub.append((c.d0[k][i], z3.Q(fr.numerator, fr.denominator)))
+      return sub
+
+    pin = lambda t, sub: z3.simplify(z3.substitute(zr(t), *sub))
+    out = host.sym_array("out", (1, nD), wp.float32)
+    with host.HostRun(mode="exec") as hr:
+      smooth.com_vel(m, d2)
+      smooth.rne(m, d2)
+      derivative.deriv_rne_vel(m, d2, out, False)
+    for ev in hr.events:
+      if ev.kind == "launch":
+        ctx.encode(ev.kernel)
+    ctx.notes.append(f"{sum(1 for e in hr.events if e.kind == 'launch')} launches, {hr.nthreads} threads interpreted")
+    qv = da["qvel"].ref.cell.d0[0]
+    bias = da["qfrc_bias"].ref.cell.d[0]
+    oc = out.ref.cell
+    dt = float(m.opt.timestep.numpy()[0])
+    Di, Dj = m.qD_fullm_i.numpy(), m.qD_fullm_j.numpy()
+    sub = pins(da, d)
+    sess = oneshot(ctx, [z3.substitute(core.zbool(a), *sub) for a in hr.assumes])
+    ctx.reach(sess, "twin:state", True)
+    rp = replay_rne(name)
+    names = {f"qvel{k}": qv[k] for k in range(nv)}
+    dB = {}
+    for e in range(nD):
+      i, j = int(Di[e]), int(Dj[e])
+      dB[(i, j)] = pin(DF.diff(zr(bias[i]), qv[j]), sub)
+      ctx.prove(sess, f"D({i},{j})", pin(oc.d[0][e], sub) == zr(oc.d0[0][e]) + dt * dB[(i, j)], names=names, replay=rp, desc=f"deriv_rne_vel ({name}): D-structure entry ({i},{j}) is not out + dt * d qfrc_bias[{i}] / d qvel[{j}] of the real com_vel + rne")
+    # entries of the true Jacobian outside the D structure must vanish (otherwise the sparsity pattern loses terms)
+    for i in range(nv):
+      for j in range(nv):
+        if (i, j) not in dB:
+          ctx.prove(sess, f"outside-D({i},{j})=0", pin(DF.diff(zr(bias[i]), qv[j]), sub) == 0, names=names, replay=rp, desc=f"d qfrc_bias[{i}] / d qvel[{j}] is not identically zero but the D structure has no entry for it")
+    # forward.implicit: the system matrix must be M - h d(qfrc_smooth)/dv = M - h (d passive + d actuator) + h d(qfrc_bias)/dv
+    d3 = host.shim_dataclass(d, "e.", symbolic=lambda n: n in ("e.qvel", "e.M", "e.cdof", "e.cinert"))
+    ea = host.arrays_of(d3)
+    saved = (forward.smooth.factor_solve_lu, forward._advance)
+    forward.smooth.factor_solve_lu = lambda *a, **k: None
+    forward._advance = lambda *a, **k: None
+    try:
+      with host.HostRun(mode="exec") as hr2:
+        smooth.com_vel(m, d3)
+        smooth.rne(m, d3)
+        forward.implicit(m, d3)
+    finally:
+      forward.smooth.factor_solve_lu, forward._advance = saved
+    qv3, bias3, M3 = ea["qvel"].ref.cell.d0[0], ea["qfrc_bias"].ref.cell.d[0], ea["M"].ref.cell.d0[0]
+    qLU = ea["qLU"].ref.cell
+    E = m.M_elemid.numpy()
+    sub3 = pins(ea, d)
+    sess2 = oneshot(ctx, [z3.substitute(core.zbool(a), *sub3) for a in hr2.assumes])
+    wrong = []
+    for e in range(nD):
+      i, j = int(Di[e]), int(Dj[e])
+      madr = int(E[max(i, j), min(i, j)])
+      Mij = M3[madr] if madr >= 0 else 0.0
+      want = zr(Mij) + dt * pin(DF.diff(zr(bias3[i]), qv3[j]), sub3)
+      wrong.append(pin(qLU.d[0][e], sub3) == want)
+    ctx.prove(sess2, "rne/sign", And(*wrong), names={f"qvel{k}": qv3[k] for k in range(nv)}, replay=replay_implicit_sign(name),
+              desc=f"forward.implicit ({name}, no passive / actuator forces): the matrix handed to factor_solve_lu is not M + h d(qfrc_bias)/d(qvel) (= M - h d qfrc_smooth / d qvel): deriv_rne_vel is called with flg_subtract=True, i.e. the Coriolis derivative enters with the wrong sign")
+
+  return (f"rne/{name}", run)
+
+
 def main(tier, seed, only=None):
   import mujoco_warp  # noqa: loaded once before the units fork
   from mujoco_warp._src import derivative, forward, passive, smooth  # noqa
@@ -1104,6 +1342,7 @@ def main(tier, seed, only=None):
   units += [unit_act_vel(d, g, b) for d in ("none", "integrator", "filter", "filterexact") for g in ("fixed", "affine") for b in ("none", "affine")]
   units += [unit_act_vel("muscle", "muscle", "muscle"), ("actuator/JtJ", unit_jtj)]
   units += [unit_assemble(v) for v in H_FLAGS]
+  units += [unit_rne(n) for n in (("chain3", "ball") if tier != "thorough" else RNE_MODELS)]
   if only:
     units = [u for u in units if any(o in u[0] for o in only)]
   return report.run_check(PID, units, tier, seed)
